@@ -107,7 +107,8 @@ def waiters_answered(r, F):
     # insert_inner sends to every notifier it got from emplace; handle_notify sends to every drained notifier on both arms
     ii = F.fn("foyer_memory::raw::RawCache::insert_inner")
     sends = ii.calls_to(r"oneshot::Sender::<T>::send$")
-    r.require(bool(sends) and all(set(ii.var_locals("notifiers")) & backslice(ii, s.term.args[0], "dep").locals for s in sends), ii,
+    nvec = {l for l in range(ii.nlocals) if ii.local_ty(l).startswith("std::vec::Vec<mea::oneshot::Sender<")}
+    r.require(bool(sends) and bool(nvec) and all(nvec & backslice(ii, s.term.args[0], "dep").locals for s in sends), ii,
               "insert_inner notifies every waiter", "each element of `notifiers` is sent the new entry", "insert_inner does not send to the waiters it took", ln=ii.lo)
     hn = F.fn("foyer_memory::raw::RawFetch::handle_notify")
     sends = hn.calls_to(r"oneshot::Sender::<T>::send$")
@@ -241,6 +242,12 @@ def single_fetch(r, F):
             disc = [sb.idx for (sb, pl, tm, o) in tables.discr_switches(poll) if "FetchOptional" in tm]
             r2 = poll.reachable([blk.term.j["to"]], avoid=disc)
             ok = not (set(tsr) & r2)
+    # and no try_set_required lies on a path that leads on to the disk hit's handle_target (i.e. on the Ok(Some) edge)
+    disc2 = [sb.idx for (sb, pl, tm, o) in tables.discr_switches(poll) if "FetchOptional" in tm]
+    for h in ht_opt:
+        for t in tsr:
+            if h in poll.reachable([t], avoid=disc2):
+                ok = False
     r.require(ok, poll, "Ok(Some) from the disk lookup never builds the origin fetch", "after the optional (disk) fetch produced a target the required fetch is not started",
               "the origin fetch is started although the disk lookup returned an entry", ln=poll.lo)
 
